@@ -1,5 +1,5 @@
 """C09 - image identity is unique within a manifest."""
-import copy, json
+import copy, json, re
 import checklib
 from checklib import Prop
 from formats import images as F
@@ -70,6 +70,104 @@ def gen_pool(rng, attr, pair=None):
     return [b, bp, beq, bmd5, ball, bpx]
 
 
+FAIL_KINDS = ["collision-mid", "malformed-key", "malformed-value", "malformed-validate", "malformed-notdict", "header-type", "header-notype",
+              "header-version", "header-missing", "old-collision-ok", "old-collision-then-malformed", "old-malformed-only", "compose-key",
+              "compose-invalid", "payload-missing", "images-missing", "arch-bogus", "arch-src", "src-refile-partial", "images-shape"]
+
+
+def failing_doc(rng, t, kind, pool, variants, arches):
+    """a document that loads refuses (or, for old-collision-ok, accepts although it holds a collision), built from the pool:
+    pool[0] B, pool[1] B' (other identity), pool[3]/pool[4] collide with B, pool[5] collides with B'"""
+    def rec(i):
+        r = copy.deepcopy(pool[i])
+        if not r.get("unified"):
+            r.pop("unified", None); r.pop("additional_variants", None)
+        return r
+    v0, v1 = variants
+    a0, a1 = arches
+    comp = F.gen_compose(rng, t)
+    comp = dict((k, comp[k]) for k in ("id", "type", "date", "respin"))
+    ver = rng.choice(["1.1", "1.2", "2.0"])
+    doc = {"header": {"type": "productmd.images", "version": ver}, "payload": {"compose": comp, "images": {}}}
+    images = doc["payload"]["images"]
+    first = [rec(1)] if rng.random() < 0.7 else []
+    if kind == "collision-mid":
+        # variants and arches are read in key order (the text is written with sorted keys): B', B, then the colliding one, then more
+        images[v0] = {a0: first + [rec(0)], a1: [rec(rng.choice([3, 4])), rec(2)]}
+        if rng.random() < 0.5:
+            images[v1] = {a0: [rec(2)]}
+    elif kind.startswith("malformed-"):
+        bad = rec(2)
+        if kind == "malformed-key":
+            bad.pop(rng.choice(["path", "mtime", "size", "volume_id", "type", "arch", "disc_number", "disc_count", "checksums", "implant_md5", "bootable", "subvariant"]))
+        elif kind == "malformed-value":
+            bad[rng.choice(["mtime", "size", "disc_number", "disc_count"])] = rng.choice(["abc", None, "", [], "1.5"])
+        elif kind == "malformed-validate":
+            f = rng.choice(["format", "type", "arch", "path", "implant_md5", "checksums", "subvariant"])
+            bad[f] = {"format": "nope", "type": "nope", "arch": "nope", "path": "/abs/x.iso", "implant_md5": "zz", "checksums": {}, "subvariant": 7}[f]
+        else:
+            bad = rng.choice(["image", 7, None, ["path"]])
+        images[v0] = {a0: first + [rec(0), bad, rec(2)]}
+        if rng.random() < 0.5:
+            images[v1] = {a1: [rec(2)]}
+        if rng.random() < 0.3:
+            doc["header"]["version"] = "1.0"
+    elif kind == "header-type":
+        doc["header"]["type"] = rng.choice(["productmd.rpms", "productmd.composeinfo", "", None, 1])
+        images[v0] = {a0: [rec(0)]}
+    elif kind == "header-notype":
+        del doc["header"]["type"]
+        images[v0] = {a0: [rec(0)]}
+    elif kind == "header-version":
+        doc["header"]["version"] = rng.choice(["abc", "1", "1.2.3", 12, None, "", "1.x", " 1.2", "v1.2"])
+        if rng.random() < 0.5:
+            del doc["header"]["version"]
+        images[v0] = {a0: [rec(0)]}
+    elif kind == "header-missing":
+        del doc["header"]
+        images[v0] = {a0: [rec(0)]}
+    elif kind in ("old-collision-ok", "old-collision-then-malformed", "old-malformed-only"):
+        doc["header"]["version"] = "1.0"
+        if rng.random() < 0.5:
+            del doc["header"]["type"]
+        cell = [] if kind == "old-malformed-only" else [rec(0), rec(4)]
+        if kind != "old-collision-ok":
+            bad = rec(2); bad.pop("path")
+            cell.append(bad)
+        images[v0] = {a0: cell}
+    elif kind == "compose-key":
+        del comp[rng.choice(["id", "type", "date", "respin"])]
+        images[v0] = {a0: [rec(0)]}
+    elif kind == "compose-invalid":
+        f = rng.choice(["id", "type", "date", "respin", "label"])
+        comp[f] = {"id": "not an id", "type": "nope", "date": "2013", "respin": "x", "label": "nope"}[f]
+        images[v0] = {a0: [rec(0)]}
+    elif kind == "payload-missing":
+        del doc["payload"]
+    elif kind == "images-missing":
+        del doc["payload"]["images"]
+    elif kind == "arch-bogus":
+        images[v0] = {"aarch64": first + [rec(0)], "bogus": [rec(2)], "x86_64": [rec(2)]}
+    elif kind == "arch-src":
+        images[v0] = {a0: first + [rec(0)], rng.choice(["src", "nosrc"]): [rec(2)]}
+        doc["header"]["version"] = rng.choice(["1.2", "2.0", "1.1"]) if rng.random() < 0.7 else "1.0"
+    elif kind == "src-refile-partial":
+        # <= 1.1: an entry under src is re-filed under the variant's other arches, in key order: aarch64 takes it, "bogus" raises
+        doc["header"]["version"] = rng.choice(["1.1", "1.0"])
+        images[v0] = {"aarch64": [rec(1)], "bogus": [], "src": [dict(rec(0), arch="src")], "x86_64": []}
+    elif kind == "images-shape":
+        shape = rng.randrange(4)
+        if shape == 0:
+            doc["payload"]["images"] = [v0]
+        elif shape == 1:
+            images[v0] = {a0: first + [rec(0)]}; images[v1] = [a0]
+        elif shape == 2:
+            images[v0] = {a0: first + [rec(0)]}; images[v1] = {a0: 7}
+        else:
+            images[v0] = {a0: first + [rec(0)]}; images[v1] = None
+    return doc
+
+
 class C09(Prop):
     id = "C09"
     lean_module = "ProductMD.Properties.C09"
@@ -82,9 +180,13 @@ class C09(Prop):
             "independently of identify_image; GATE-CROSSING histories on one object (add / dumps / header.version assignment / loads into the "
             "same object, header and images after every step): an add at a header >= 1.1 must be refused against ANY image present, a step at "
             "an enforcing version creates no new colliding pair; "
+            "histories that CONTINUE after a refused loads into the object in use (collision in the middle of a document, malformed image after "
+            "valid ones, wrong / missing header type or version, broken compose section, bogus / src arch, src re-filing that raises half way, "
+            "a < 1.1 document with a collision then a malformed entry): header, compose fields, and images (partial content) after EVERY step, "
+            "real vs model, nothing lost, no new pair under a >= 1.1 document header, unique final state when every step was enforced; "
             "documents (1.0/1.1/1.2/2.0) with and without injected collisions through loads; "
             "identify_image(object) vs identify_image(serialised dict) vs the spec tuple; non-trivial = history with >= 1 accepted add")
-    assumptions = ["the object after a FAILED loads into a used object is not modelled (histories end there)",
+    assumptions = ["a text that json.load refuses (loads raises before deserialize runs, object untouched) is outside the model; documents are read with sorted keys",
                    "image objects are not mutated after they were filed (add_checksum / attribute assignment are outside the quantifier)",
                    "values compared by == are str/int/bool/None/list/dict of those (no floats: 1 == 1.0 is outside the model)"]
     partial = {}
@@ -93,7 +195,7 @@ class C09(Prop):
     def cases(self, rng, tier, budget):
         t = F.tables()
         attrs = list(ATTR_VARIANTS)
-        n_hist = int(budget * 0.45)
+        n_hist = int(budget * 0.35)
         bogus = ["src", "nosrc", "x86-64", "", "SRC", "srcx", "sr", "nosr", "no", "nosrcs", " src", "x86_64 ", "ppc6", "ppc64lee", "noarch", "NOARCH", u"\u0663"]
         for n in range(n_hist):
             attr = attrs[n % len(attrs)]
@@ -161,6 +263,45 @@ class C09(Prop):
                     ops.append(["loads", one_doc(rng.choice(["1.2", "1.0"]), [rng.randrange(len(pool))])])
                 ops += adds(rng.randint(1, 4))
             yield {"op": "xhistory", "args": {"compose": compose, "pool": pool, "ops": ops}}
+        # histories that CONTINUE after a refused loads into the object in use (the caller caught the exception): the document's
+        # header version stays on the object, the compose fields are assigned as far as the reader got, the images filed before the
+        # offending entry stay.  Every kind of refusal round-robin, then adds / dumps / further loads on the object left behind.
+        for n in range(int(budget * 0.12)):
+            attr = attrs[n % len(attrs)]
+            pool = gen_pool(rng, attr)
+            variants = sorted(rng.sample(F.VARIANTS, 2))
+            arches = sorted(rng.sample([x for x in t["arches"] if x not in ("src", "nosrc")], 2))
+            compose = F.gen_compose(rng, t) if rng.random() < 0.7 else {}
+            kind = FAIL_KINDS[n % len(FAIL_KINDS)]
+            doc = failing_doc(rng, t, kind, pool, variants, arches)
+
+            def adds(k, arches=arches, variants=variants, pool=pool):
+                return [["add", rng.choice(variants), rng.choice(arches + ["x86_64"]) if rng.random() < 0.92 else rng.choice(["src", "nosrc", "bogus"]),
+                         rng.randrange(len(pool))] for _ in range(k)]
+            ops = []
+            r = rng.random()
+            if r < 0.3:
+                ops.append(["set_version", rng.choice(["1.1", "1.2", "1.0", "2.0"])])
+            if r < 0.8:
+                ops += adds(rng.randint(1, 3))
+            if rng.random() < 0.5:
+                ops.append(["dumps"])
+            ops.append(["loads", doc, kind])
+            ops += adds(rng.randint(1, 4))
+            c = rng.random()
+            if c < 0.3:
+                ops.append(["dumps"])
+            elif c < 0.5:
+                ops.append(["loads", failing_doc(rng, t, FAIL_KINDS[(n * 7 + 3) % len(FAIL_KINDS)], pool, variants, arches), "second"])
+            elif c < 0.65:
+                good = {"version": "1.2", "compose": F.gen_compose(rng, t), "pool": [copy.deepcopy(pool[1])], "adds": [[variants[0], arches[0], 0]]}
+                ops.append(["loads", F.doc_of_spec(good, rng.choice(["1.2", "1.0"])), "good"])
+            elif c < 0.75:
+                ops.append(["set_version", rng.choice(["1.1", "1.2", "1.0"])])
+            ops += adds(rng.randint(1, 3))
+            if rng.random() < 0.3:
+                ops.append(["dumps"])
+            yield {"op": "xhistory", "args": {"compose": compose, "pool": pool, "ops": ops, "stream": "failed-load:" + kind}}
         for n in range(int(budget * 0.25)):
             ver = ["1.2", "1.1", "1.0", "2.0"][n % 4]
             spec = F.gen(rng, tier, version=ver, max_variants=2, max_arches=2, max_cell=3)
@@ -200,7 +341,7 @@ class C09(Prop):
                             r["disc_number"] = rng.choice([float(r["disc_number"]) + 0.5, str(r["disc_number"]), " %d " % r["disc_number"], float(r["disc_number"])])
                             r["disc_number"] = {"$float": repr(r["disc_number"])} if isinstance(r["disc_number"], float) else r["disc_number"]
             yield {"op": "load", "args": {"doc": doc}}
-        for n in range(budget - n_hist - int(budget * 0.25) - int(budget * 0.15)):
+        for n in range(budget - n_hist - int(budget * 0.25) - int(budget * 0.15) - int(budget * 0.12)):
             img = F.gen_image(rng, n)
             if n % 2:
                 F.widen_image(rng, img, t)
@@ -251,7 +392,8 @@ class C09(Prop):
                     elif o[0] == "del_variant":
                         del m[o[1]]
                     else:
-                        m.loads(json.dumps(F.dec(o[1])))
+                        # keys sorted: the text fixes the order in which variants / arches are read (the driver protocol sorts too)
+                        m.loads(json.dumps(F.dec(o[1]), sort_keys=True))
                     res = "ok"
                 except KeyError as e:
                     if o[0] in ("discard", "del_variant"):
@@ -272,9 +414,8 @@ class C09(Prop):
                 pool_idx = dict((id(x), i) for i, x in enumerate(objs))
                 idcells = dict((vv, dict((aa, sorted(pool_idx.get(id(x), -1) for x in c)) for aa, c in d.items())) for vv, d in m.images.items())
                 steps.append({"res": res, "version_before": before, "version": m.header.version, "cells": cells_now, "reads_ok": reads_ok,
-                              "idcells": idcells})
-                if o[0] == "loads" and res != "ok":
-                    break                                   # a failed loads leaves the object half updated: histories end there
+                              "idcells": idcells, "compose": dict((f, copy.deepcopy(getattr(m.compose, f))) for f in F.COMPOSE_FIELDS)})
+                # a failed loads leaves the object half updated: the history goes on with it
             return {"steps": steps}
         if case["op"] == "load":
             m = im.Images()
@@ -304,7 +445,7 @@ class C09(Prop):
             return [{"op": "images_history", "args": {"version": a["version"], "compose": {}, "ops": [
                 {"variant": v, "arch": arch, "id": idx, "image": F.enc(a["pool"][idx])} for v, arch, idx in a["ops"]]}}]
         if case["op"] == "xhistory":
-            return [{"op": "images_xhistory", "args": {"compose": F.enc(a.get("compose", {})), "ops": [
+            return [{"op": "images_xhistory", "args": {"compose": F.enc(dict({"final": False}, **a.get("compose", {}))), "ops": [
                 (["add", o[1], o[2], o[3], F.enc(a["pool"][o[3]])] if o[0] == "add" else (["loads", F.enc(o[1])] if o[0] == "loads" else o))
                 for o in a["ops"]]}}]
         if case["op"] == "load":
@@ -318,7 +459,7 @@ class C09(Prop):
             return {"steps": [{"res": s["res"], "cells": dict((v, dict((a, sorted(i for i, _ in cell)) for a, cell in archs)) for v, archs in s["state"])}
                               for s in outs[0]]}
         if case["op"] == "xhistory":
-            return {"steps": [{"res": st["res"], "version": F.dec(st["version"]),
+            return {"steps": [{"res": st["res"], "version": F.dec(st["version"]), "compose": F.dec(st["compose"]),
                                "cells": dict((v, dict((a, sorted((F.dec(img) for _, img in cell), key=F.rec_key)) for a, cell in archs)) for v, archs in st["state"])}
                               for st in outs[0]]}
         if case["op"] == "load":
@@ -335,8 +476,7 @@ class C09(Prop):
             def view(steps, ops):
                 out = []
                 for st, o in zip(steps, ops):
-                    failed_load = o[0] == "loads" and st["res"] != "ok"
-                    out.append({"res": st["res"]} if failed_load else {"res": st["res"], "version": st["version"], "cells": st["cells"]})
+                    out.append({"res": st["res"], "version": st["version"], "cells": st["cells"], "compose": st["compose"]})
                 return out
             r, mo = view(real_out["steps"], case["args"]["ops"]), view(model_out["steps"], case["args"]["ops"])
             return None if checklib.canon(r) == checklib.canon(mo) and len(real_out["steps"]) == len(model_out["steps"]) else {"real": r, "model": mo}
@@ -395,10 +535,14 @@ class C09(Prop):
                 return dict((vv, dict((aa, sorted(c, key=F.rec_key)) for aa, c in d.items())) for vv, d in cells.items())
             prev = {}
             prev_ids = {}
+            all_enforced = True
             for k, (o, st) in enumerate(zip(a["ops"], real_out["steps"])):
-                ctx = {"step": k, "op": o if o[0] != "loads" else ["loads", "<document of format %s>" % o[1]["header"]["version"]],
+                def docver(d):
+                    h = d.get("header") if isinstance(d, dict) else None
+                    return h.get("version") if isinstance(h, dict) else None
+                ctx = {"step": k, "op": o if o[0] != "loads" else ["loads", "<document of format %r>" % (docver(o[1]),)] + o[2:],
                        "header_before": st["version_before"], "header_after": st["version"], "result": st["res"],
-                       "history": [(x if x[0] != "loads" else ["loads", x[1]["header"]["version"]]) for x in a["ops"][:k + 1]]}
+                       "history": [(x if x[0] != "loads" else ["loads", docver(x[1])] + x[2:]) for x in a["ops"][:k + 1]]}
                 if not st.get("reads_ok", True):
                     return {"kind": "state-changed-by-read", "observed": ctx, "required": "identify_image / __getitem__ are repeatable and leave the manifest unchanged"}
                 if o[0] == "add":
@@ -408,7 +552,15 @@ class C09(Prop):
                     collide = [r["path"] for r in recs(prev) if F.identity7(r) == F.identity7(new) and r["checksums"] != new["checksums"]]
                     arch_ok = o[2] in t["all_arches"] and o[2] not in ("src", "nosrc")
                     ctx["colliding_with"] = collide
-                    if (not arch_ok) or (enforce and collide):
+                    vb = st["version_before"]
+                    header_valid = isinstance(vb, str) and re.match(r"^\d+\.\d+$", vb) is not None
+                    if arch_ok and not header_valid:
+                        # a header that does not validate (assigned by the caller, or left by a refused loads: Header.deserialize
+                        # assigns before it validates): version_tuple raises in front of the scan, nothing is filed
+                        want = {"err": "ValueError" if isinstance(vb, str) else "TypeError"}
+                        if st["res"] != want or st["cells"] != prev:
+                            return {"kind": "add-under-invalid-header", "observed": ctx, "required": "%s, manifest unchanged" % want["err"]}
+                    elif (not arch_ok) or (enforce and collide):
                         if st["res"] != {"err": "ValueError"}:
                             return {"kind": "missing-refusal", "observed": ctx,
                                     "required": "ValueError: the header says %s, the manifest already holds an image of the same identity with different "
@@ -442,19 +594,38 @@ class C09(Prop):
                         return {"kind": "cells-changed", "observed": ctx, "required": "%s does not touch the images" % o[0]}
                     step_enforces = False
                 else:
-                    vp = F.version_pair(o[1]["header"]["version"])
-                    step_enforces = vp is not None and vp >= (1, 1) and st["res"] == "ok"
-                    if st["res"] == "ok" and any(r not in recs(st["cells"]) for r in recs(prev)):
-                        return {"kind": "image-lost", "observed": ctx, "required": "loads adds to the images already present"}
+                    # loads, returned or raised: the images are filed under the DOCUMENT's header (assigned first).  Whatever the
+                    # outcome nothing present is lost and, under a document header >= 1.1, no new colliding pair appears - also in
+                    # the partial content a refused loads leaves behind
+                    dv = docver(o[1])
+                    vp = F.version_pair(dv) if isinstance(dv, str) and dv == dv.strip() else None
+                    step_enforces = vp is not None and vp >= (1, 1)
+                    if any(r not in recs(st["cells"]) for r in recs(prev)):
+                        return {"kind": "image-lost", "observed": ctx, "required": "loads (returned or raised) keeps the images already present"}
+                    if st["res"] != "ok":
+                        # what a refused loads may leave in the header: the document's version or the one before; never reset
+                        # (C09_failed_load_version: the gate the caller is left with is the one the partial content was filed under)
+                        has_ver = isinstance(o[1], dict) and isinstance(o[1].get("header"), dict) and "version" in o[1]["header"]
+                        want_ver = dv if has_ver else st["version_before"]
+                        if st["version"] != want_ver:
+                            return {"kind": "header-after-failed-load", "observed": dict(ctx, header_required=want_ver),
+                                    "required": "the document's header.version when it has one (assigned first, validated or not), else the previous header"}
+                        if vp is None and st["cells"] != prev:
+                            return {"kind": "images-filed-under-unreadable-header", "observed": ctx, "required": "no image filed when the header is refused"}
                 if step_enforces:
                     newbad = [p for p in bad_pairs(st["cells"]) if p not in bad_pairs(prev)]
                     if newbad:
                         return {"kind": "uniq-broken", "observed": dict(ctx, new_pairs=newbad),
                                 "required": "a step taken at format >= 1.1 never puts two images of equal identity and different checksums side by side"}
-                if o[0] == "loads" and st["res"] != "ok":
-                    break
+                all_enforced = all_enforced and (step_enforces or o[0] in ("dumps", "set_version", "discard", "del_variant")
+                                                 or (o[0] == "add" and st["res"] != "ok" and st["cells"] == prev))
                 prev = st["cells"]
                 prev_ids = st["idcells"]
+            # the final state: when every add / loads of the history (refused ones included) ran at an enforcing header, the manifest
+            # left at the end - after any number of refused loads - is unique
+            if all_enforced and bad_pairs(prev):
+                return {"kind": "uniq-broken-final", "observed": {"pairs": bad_pairs(prev), "history": ctx["history"] if a["ops"] else []},
+                        "required": "unique manifest after a history whose adds and loads all ran at format >= 1.1"}
             return None
         if case["op"] == "load":
             doc = F.dec(a["doc"])
@@ -513,6 +684,12 @@ class C09(Prop):
             inc("xhistory.steps", len(real_out["steps"]))
             for o, st in zip(case["args"]["ops"], real_out["steps"]):
                 inc("xhistory.%s:%s" % (o[0], "ok" if st["res"] == "ok" else st["res"]["err"]))
+                if o[0] == "loads" and len(o) > 2:
+                    inc("xhistory.loads[%s]:%s" % (o[2], "ok" if st["res"] == "ok" else st["res"]["err"]))
+                    if st["res"] != "ok":
+                        inc("xhistory.failed-load.header-left:%s" % ("document's" if st["version"] != st["version_before"] else "unchanged"))
+                        inc("xhistory.failed-load.images-filed-before-raise", sum(len(c) for d in st["cells"].values() for c in d.values()) > 0)
+                        inc("xhistory.failed-load.steps-after", len(real_out["steps"]) - 1 - case["args"]["ops"].index(o))
                 if o[0] == "add" and isinstance(st["version_before"], str):
                     vp = F.version_pair(st["version_before"])
                     inc("xhistory.add@%s" % ("enforcing" if vp and vp >= (1, 1) else "closed-gate"))
@@ -541,6 +718,6 @@ PROP = C09()
 
 MANIFEST = dict(
     technique="Lean 4 proof over an executable model of Images.add that RUNS THE STATEMENT LIST READ FROM THE SOURCE (tools/gen_images.py) with the generated identity tuple and version gate: invariant by induction over unbounded histories and over the loops of the reader; refusal-changes-nothing from the order of effects; differential check of every step against the real library + Uniq oracle written independently of identify_image",
-    text="C09_tuple (decide): the code's identity tuple is the documented seven attributes. C09_script (decide on the regenerated statement list): nothing that can raise follows the insertion, the insertion follows the scan. C09_step / C09_reachable / C09_reachable_from: for any header version on which the generated gate (>= 1.1) is on, any history of adds of any length keeps Uniq. C09_refusal: a raising add returns the identical state (any version); C09_refusal_class: it is ValueError; C09_accepts: no spurious refusal. C09_load: every manifest deserialised from a >= 1.1 document is Uniq; C09_load_rejects: a document of any enforcing version (1.1 with its src re-filing included; entries under a src key of a <= 1.1 document excepted, they are re-filed or dropped) containing a colliding pair is rejected. C09_identity: identify(object) = identify(serialised dict) for every image that validates. C09_below_witness: under 0.0 / 1.0 a colliding pair is accepted (F11). Gate-crossing histories (the version is state: dumps sets it, loads replaces it, callers assign it): C09_no_new_pair / C09_add_guard - for ANY state, an add at an enforcing version creates no new colliding pair and an accepted one collides with nothing present; C09_dumps_enforces; C09_history_pairs / C09_history - any sequence of add / dumps / set-version / loads-into-the-same-object whose adds and loads happen at enforcing versions creates no new pair, hence keeps Uniq; C09_load_into; C09_cross_witness (add, dumps, colliding add -> ValueError).",
+    text="C09_tuple (decide): the code's identity tuple is the documented seven attributes. C09_script (decide on the regenerated statement list): nothing that can raise follows the insertion, the insertion follows the scan. C09_step / C09_reachable / C09_reachable_from: for any header version on which the generated gate (>= 1.1) is on, any history of adds of any length keeps Uniq. C09_refusal: a raising add returns the identical state (any version); C09_refusal_class: it is ValueError; C09_accepts: no spurious refusal. C09_load: every manifest deserialised from a >= 1.1 document is Uniq; C09_load_rejects: a document of any enforcing version (1.1 with its src re-filing included; entries under a src key of a <= 1.1 document excepted, they are re-filed or dropped) containing a colliding pair is rejected. C09_identity: identify(object) = identify(serialised dict) for every image that validates. C09_below_witness: under 0.0 / 1.0 a colliding pair is accepted (F11). Gate-crossing histories (the version is state: dumps sets it, loads replaces it, callers assign it): C09_no_new_pair / C09_add_guard - for ANY state, an add at an enforcing version creates no new colliding pair and an accepted one collides with nothing present; C09_dumps_enforces; C09_history_pairs / C09_history - any sequence of add / dumps / set-version / loads-into-the-same-object whose adds and loads happen at enforcing versions creates no new pair, hence keeps Uniq; C09_load_into; C09_cross_witness (add, dumps, colliding add -> ValueError). A REFUSED loads is a step like any other (Img.loadsInto returns the object the exception leaves: header.version assigned first, compose fields as far as assigned, images filed before the offending entry kept, nothing cleared): C09_failed_load_pairs / C09_failed_load_invariant - under a document header that enforces the scan the object left behind has no new colliding pair, hence stays Uniq; C09_failed_load_version / C09_failed_load_gate / C09_load_version_ok / C09_failed_header_cells - which header the call leaves (the document's, never reset; current only on return) and that an unreadable header files nothing; C09_history_total(_pairs) - any history of add / refused add / dumps / set-version / returned or RAISED loads / discard / del whose adds and loads run at enforcing versions keeps Uniq; C09_failed_load_witness (partial content kept, gate kept at 1.1/1.2); C09_failed_load_below_witness + C09_ok_load_below_contrast - a refused loads of a 1.0 document leaves header 1.0 on an object that was at 1.2: its colliding first entry stays and later colliding adds are accepted (finding candidate, reproduced on the library).",
     note="Mutating an Image after it was filed is outside the property's quantifier (histories of add calls / loaded files).",
     ref="7/C09")
